@@ -381,7 +381,7 @@ def check_layer(b: Builder, res: Result) -> None:
         else:
             d1 = f"a new layer can be opened while another layer still has no modules (guard: `{show_pc(e.pc)[:140]}`)"
         verdict(res, r, "C16.R3", K(m, "[no pending layer]"), ok1, d1, e.where, kind="dominance")
-        ok2 = implies(pcf, f_not(in_store)) and e.data["how"] in ("[]=", "setdefault")
+        ok2 = implies(pcf, f_not(in_store))
         verdict(res, r, "C16.R3", K(m, "[unique name]"), ok2, "a layer name can be defined once" if ok2 else f"a layer name can be defined twice: the second definition replaces the first (guard: `{show_pc(e.pc)[:140]}`)", e.where, kind="dominance")
         v = e.data["value"]
         ok3 = v[0] in ("list", "tuple", "set") and not v[1]
@@ -420,7 +420,7 @@ def check_modules_method(b: Builder, res: Result, mname: str, union_param: bool)
             kind="dominance",
         )
         key = e.data["key"]
-        ok = b.single_pending(key) and e.data["how"] == "[]="
+        ok = b.single_pending(key) and e.data["how"] in ("[]=", "update")  # (setdefault would keep the empty marker)
         verdict(res, r, "C16.R4", K(m, "[stored under the pending layer]"), ok, "stored under the single pending layer" if ok else f"the modules are stored under `{show(key)[:80]}`, not under the one layer that is waiting for its modules", e.where, kind="structural")
         v = e.data["value"]
         if union_param:
